@@ -136,6 +136,10 @@ def make_objective(name, np, ub, rettype):
         # exact rational costs (fractions.Fraction), not dyadic
         import fractions
         return lambda x: fractions.Fraction(int(np.sum(np.minimum(np.abs(np.nan_to_num(np.asarray(x, dtype=float))) * 64.0, 1e15).astype(np.int64))), 3)
+    if name == 'nearorigin':
+        # optimum a little inside the box next to a zero lower bound (4 % of the upper bound): overshooting particles are clipped
+        # onto exact zeros, which is a good but not the best point
+        return lambda x: conv(np.sum((x - 0.04 * ubc) ** 2))
     if name == 'longdbl':
         # evaluated in extended precision and returned as such (np.longdouble): most values are not doubles
         return lambda x: np.sum(np.asarray(x, dtype=np.longdouble) ** 2) + np.longdouble(1) / np.longdouble(3)
